@@ -153,15 +153,15 @@ RenderField(f, eol) == f.name \o <<COLON>> \o (IF f.first = <<>> THEN <<>> ELSE 
 
 \* ---- Impl: Paragraph.WriteTo ----------------------------------------------
 \* as pinned (parse.go:58): two chained string replacements
-RECURSIVE ReplaceAllFrom(_, _, _, _, _)
-ReplaceAllFrom(s, i, old, new, acc) ==
+RECURSIVE ReplaceSubFrom(_, _, _, _, _)
+ReplaceSubFrom(s, i, old, new, acc) ==
     IF i > Len(s) THEN acc
-    ELSE IF OccursAt(s, i, old) THEN ReplaceAllFrom(s, i + Len(old), old, new, acc \o new)
-    ELSE ReplaceAllFrom(s, i + 1, old, new, Append(acc, s[i]))
-ReplaceAll(s, old, new) == ReplaceAllFrom(s, 1, old, new, <<>>)
+    ELSE IF OccursAt(s, i, old) THEN ReplaceSubFrom(s, i + Len(old), old, new, acc \o new)
+    ELSE ReplaceSubFrom(s, i + 1, old, new, Append(acc, s[i]))
+ReplaceSub(s, old, new) == ReplaceSubFrom(s, 1, old, new, <<>>)
 
 ImplWriteValuePinned(v) ==
-    ReplaceAll(ReplaceAll(v, <<LF>>, <<LF, SP>>), <<LF, SP, LF>>, <<LF, SP, DOT, LF>>)
+    ReplaceSub(ReplaceSub(v, <<LF>>, <<LF, SP>>), <<LF, SP, LF>>, <<LF, SP, DOT, LF>>)
 
 \* after the fix: one trailing newline is not content; every further line is
 \* written with a leading space, an empty line as " ."; a first line that is
